@@ -85,10 +85,36 @@ def below_threshold_hook(ev, fv, args, kwargs):
 _WORK = {}
 
 
+class JobTimeout(BaseException):
+    """A single analysis job exceeded its wall-clock bound (BaseException: no handler of the engine may swallow it)."""
+
+
+JOB_TIMEOUT = float(os.environ.get("YADSA_JOB_TIMEOUT", "900"))
+
+
+def _alarm(signum, frame):
+    raise JobTimeout()
+
+
+def _guarded(fn, cell):
+    """Run one job under a wall-clock bound: an analysis that cannot finish is an analysis error (exit 2), never a hang and never a verdict."""
+    import signal
+
+    old = signal.signal(signal.SIGALRM, _alarm)
+    signal.setitimer(signal.ITIMER_REAL, JOB_TIMEOUT)
+    try:
+        return fn(cell)
+    except JobTimeout:
+        return ("__error__", f"job {str(cell)[:200]} exceeded the wall-clock bound of {JOB_TIMEOUT:g} s (folded expressions too large to decide)")
+    finally:
+        signal.setitimer(signal.ITIMER_REAL, 0)
+        signal.signal(signal.SIGALRM, old)
+
+
 def _worker(i):
     fn, cells = _WORK["fn"], _WORK["cells"]
     try:
-        return i, fn(cells[i])
+        return i, _guarded(fn, cells[i])
     except Exception as e:  # checker bug: surfaces as analysis error in the parent
         import traceback
 
@@ -99,7 +125,13 @@ def run_cells(fn, cells, jobs=None):
     """Map fn over cells with a fork pool (the parsed project is shared copy-on-write)."""
     jobs = jobs or min(16, os.cpu_count() or 1)
     if len(cells) < 8 or jobs <= 1:
-        return [fn(c) for c in cells]
+        out = []
+        for c in cells:
+            r = _guarded(fn, c)
+            if isinstance(r, tuple) and r and r[0] == "__error__":
+                raise model.AnalysisError("analysis job failed:\n" + r[1])
+            out.append(r)
+        return out
     _WORK["fn"] = fn
     _WORK["cells"] = cells
     ctx = mp.get_context("fork")
@@ -107,6 +139,7 @@ def run_cells(fn, cells, jobs=None):
         out = [None] * len(cells)
         for i, r in pool.imap_unordered(_worker, range(len(cells)), chunksize=2):
             if isinstance(r, tuple) and r and r[0] == "__error__":
-                raise model.AnalysisError("worker crashed:\n" + r[1])
+                pool.terminate()
+                raise model.AnalysisError("analysis job failed:\n" + r[1])
             out[i] = r
     return out
